@@ -681,6 +681,94 @@ def rule_firstend(ctx, rep, rid="R-C03-firstend"):
                           "region runs from the first start marker to the last end marker and everything in between (declarations and their errors) disappears" % m)
 
 
+def rule_anycode(ctx, rep, rid="R-C03-anycode"):
+    """Every problem makes the check fail, whatever its code.  The command-line and project glue (crate ironplcc) shows the code of a problem
+    but never *decides* on it: a value read from Diagnostic.code reaches no comparison and no branch.  Otherwise some class of problems
+    (say, "not implemented") is waved through, and because the analysis stops at the first failing stage, whatever that problem was
+    hiding is waved through with it.  Zero expected."""
+    from vlib import units
+    from vlib.mir import loc_str
+    r = rep.rule(rid, "the glue around the analysis (crate ironplcc) never decides on the code of a problem: a value read from Diagnostic.code reaches no comparison or branch "
+                      "(it is only shown)", floor=1, floor_what="reads of Diagnostic.code in ironplcc")
+    n = 0
+    for b in sorted(ctx.prog.bodies.values(), key=lambda x: x.id):
+        if b.f["crate"] != "ironplcc" or "::test" in norm(b.id) or b.f.get("exp"):
+            continue
+        seeds = set()
+        for i, j, st in b.all_stmts():
+            if st[0] != "=":
+                continue
+            pl = None
+            if st[2][0] == "ref":
+                pl = st[2][2]
+            elif st[2][0] == "use":
+                pl = op_place(st[2][1])
+            if pl is None:
+                continue
+            rt = b.root(pl)
+            if any(isinstance(x, list) and x[0] == "f" and x[2] == "code" and (x[3] or "").endswith("diagnostic::Diagnostic") for x in rt[1]):
+                seeds.add(st[1][0])
+        for c in b.calls():
+            for a in c.args:
+                p = op_place(a)
+                if p is not None and any(isinstance(x, list) and x[0] == "f" and x[2] == "code" and (x[3] or "").endswith("diagnostic::Diagnostic") for x in b.root(p)[1]):
+                    seeds.add(("call", c.bb))
+        if not seeds:
+            continue
+        n += 1
+        fn = norm(b.id).replace("ironplcc::", "")
+        # forward propagation that stops at formatting: text made *from* the code (a message, a link) is display, and what happens to that
+        # text (a URL that fails to parse) is no decision on the code
+        taint = {x for x in seeds if not isinstance(x, tuple)}
+        changed = True
+        from vlib.mir import rvalue_operands
+        while changed:
+            changed = False
+            for i, j, st in b.all_stmts():
+                if st[0] == "=" and st[1][0] not in taint:
+                    ops = [op_place(o) for o in rvalue_operands(st[2])]
+                    if st[2][0] in ("ref", "ptr"):
+                        ops.append(st[2][2])
+                    elif st[2][0] in ("disc", "len"):
+                        ops.append(st[2][1])
+                    if any(p is not None and p[0] in taint for p in ops):
+                        taint.add(st[1][0])
+                        changed = True
+            for c in b.calls():
+                nm = c.callee or c.u or ""
+                if "fmt::" in nm or nm.endswith("::to_string") or "format" in nm.split("::")[-1]:
+                    continue
+                if c.dest[0] not in taint and any(op_place(a) is not None and op_place(a)[0] in taint for a in c.args):
+                    taint.add(c.dest[0])
+                    changed = True
+        bad = []
+        for c in b.calls():
+            nm = (c.u or c.callee or "")
+            last = nm.split("::")[-1]
+            direct = ("call", c.bb) in seeds
+            tainted = direct or any(op_place(a) is not None and op_place(a)[0] in taint for a in c.args)
+            if tainted and last in ("eq", "ne", "cmp", "partial_cmp", "contains", "starts_with", "ends_with", "matches", "lt", "le", "gt", "ge"):
+                bad.append((c, nm))
+        for i in b.reachable(0):
+            t = b.term(i)
+            if t[0] == "switch":
+                p = op_place(t[1])
+                if p is not None and p[0] in taint:
+                    d = b.single_def(p[0])
+                    # the Result/Option of a formatting call is not a decision on the code
+                    if d and d[0] == "call" and ("fmt" in (d[2].callee or "") or "write" in (d[2].callee or "")):
+                        continue
+                    bad.append((None, "branch"))
+        if bad:
+            k = 0
+            for c, nm in bad:
+                k += 1
+                r.finding("%s|decides on Diagnostic.code#%d" % (fn, k), loc_str(b.f, c.loc) if c is not None else "%s:%d" % (b.f["file"], b.f["line"]),
+                          "the code of a problem decides something here (%s): problems of some code are treated differently from the others" % nm)
+        else:
+            r.ok(fn, "%s:%d" % (b.f["file"], b.f["line"]), "the code is only shown")
+
+
 def run(ctx, rep):
     rep.not_decided += ["that every companion-independent semantic rule still fires in the presence of arbitrary other declarations (value-level)",
                         "'adding files may cure undeclared errors' monotonicity"]
@@ -705,6 +793,7 @@ def run(ctx, rep):
     rule_firstend(ctx, rep)
     rule_optsense(ctx, rep)
     rule_dupreport(ctx, rep)
+    rule_anycode(ctx, rep)
     # an error in a use that names its enumeration must not be cured by an unrelated enumeration
     from rules.c02_enum import run_exact
     run_exact(ctx, rep, rid="R-C03-enumexact")
